@@ -1371,6 +1371,16 @@ package mcp
 //@   modifies *
 //@   ensures @list-array-is-never-null result.1 == nil && result.0 != nil && result.0.Roots != nil
 
+// ToolResultContent.MarshalJSON (C19, nested content survives encoding): every nested block is re-decoded into a
+// zero wire value, so members a block does not have (omitted on the wire) cannot be inherited from the block before it.
+//@ func (*ToolResultContent).MarshalJSON [C19]
+//@   modifies *
+//@   assert at call internal/json.Unmarshal: @each-nested-block-is-decoded-into-a-zero-value typeIs($1, *wireContent) && $1.(*wireContent).Type == "" && $1.(*wireContent).Text == "" &&
+//@        $1.(*wireContent).MIMEType == "" && len($1.(*wireContent).Data) == 0 && $1.(*wireContent).Resource == nil && $1.(*wireContent).URI == "" && $1.(*wireContent).Name == "" &&
+//@        $1.(*wireContent).Title == "" && $1.(*wireContent).Description == "" && $1.(*wireContent).Size == nil && $1.(*wireContent).Meta == nil && $1.(*wireContent).Annotations == nil &&
+//@        len($1.(*wireContent).Icons) == 0 && $1.(*wireContent).ID == "" && $1.(*wireContent).Input == nil && $1.(*wireContent).ToolUseID == "" && len($1.(*wireContent).NestedContent) == 0 &&
+//@        $1.(*wireContent).StructuredContent == nil && !$1.(*wireContent).IsError
+
 // Server.Connect (C13): keep-alive is started, with the configured interval, exactly when one is configured, and
 // before the session is handed to the caller.
 //@ func (*Server).Connect [C13, C07]
